@@ -95,9 +95,10 @@ fn c17_glue_write_register_unit_filter() {
 }
 
 //@ props: C17 C01~ C02~
+//@ tier: thorough
 //@ peer: yes
-//@ timeout: 1500
-//@ fns: server::task::SessionTask::handle_frame, SessionTask::reply_with_error, server::request::Request::parse (error path)
+//@ timeout: 3600
+//@ fns: server::task::SessionTask::handle_frame, SessionTask::reply_with_error, server::request::Request::parse (error path; measured 944 s)
 //@ bounds: MBAP, malformed write-single-coil requests (fc 5): every 4-byte body with an undefined coil value; every unit id against a map holding unit 17
 /// a malformed request addressed to the configured unit is answered with exception 03 and reaches no handler;
 /// addressed to an unconfigured unit it is not answered at all
